@@ -25,7 +25,7 @@ func c03run(rep *hk.Reporter, c *c03case) {
 	var ok bool
 	var err error
 	p, msg, _, _ := hk.Try(func() { ok, err = VerifyHashed(c.px, c.py, c.e, c.r, c.s) })
-	d := hk.D{"px": hexOrNil(c.px), "py": hexOrNil(c.py), "e": hexOrNil(c.e), "r": hexOrNil(c.r), "s": hexOrNil(c.s), "label": c.label, "model_accepts": want, "err": errStr(err)}
+	d := hk.D{"px": zvHexOrNil(c.px), "py": zvHexOrNil(c.py), "e": zvHexOrNil(c.e), "r": zvHexOrNil(c.r), "s": zvHexOrNil(c.s), "label": c.label, "model_accepts": want, "err": zvErrStr(err)}
 	switch {
 	case p:
 		d["panic"] = msg
@@ -43,7 +43,7 @@ func c03run(rep *hk.Reporter, c *c03case) {
 // tupleFor builds (e, r, s) satisfying the verification *equation* for public
 // key P and the chosen s, t — without needing a private key: R = [s]G + [t]P,
 // r = t - s, e = r - x_R (all mod n).
-func tupleFor(P ref.Pt, s, t *big.Int) (e, r *big.Int, inf bool) {
+func zvTupleFor(P ref.Pt, s, t *big.Int) (e, r *big.Int, inf bool) {
 	R := ref.BaseMulFast(ref.ModN(s)).Add(P.Mul(ref.ModN(t)))
 	r = ref.ModN(new(big.Int).Sub(t, s))
 	if R.Inf {
@@ -72,43 +72,43 @@ func TestVerifC03(t *testing.T) {
 		P ref.Pt
 	}
 	var kps []kp
-	kps = append(kps, kp{bi(1), ref.G()}, kp{bi(2), refPub(bi(2))}, kp{new(big.Int).Set(nm1), refPub(nm1)})
+	kps = append(kps, kp{zvBi(1), ref.G()}, kp{zvBi(2), zvRefPub(zvBi(2))}, kp{new(big.Int).Set(zvNm1), zvRefPub(zvNm1)})
 	for i := 0; i < nKeys; i++ {
-		d := randScalar(rng)
-		kps = append(kps, kp{d, refPub(d)})
+		d := zvRandScalar(rng)
+		kps = append(kps, kp{d, zvRefPub(d)})
 	}
 
 	// (a) valid tuples, including short t, r, s; and (c) all 1,280 single-bit flips
 	nFlipTuples := hk.N(5, 120)
 	for i := 0; i < hk.N(60, 2000); i++ {
 		k := kps[rng.Intn(len(kps))]
-		s := randScalar(rng)
-		tt := randScalar(rng)
+		s := zvRandScalar(rng)
+		tt := zvRandScalar(rng)
 		switch i % 6 {
 		case 1: // short t
 			b := rng.Bytes(32 - 1 - rng.Intn(31))
 			tt = new(big.Int).SetBytes(b)
 			if tt.Sign() == 0 {
-				tt = bi(1)
+				tt = zvBi(1)
 			}
 		case 2: // short s
 			s = new(big.Int).SetBytes(rng.Bytes(32 - 1 - rng.Intn(31)))
 			if s.Sign() == 0 {
-				s = bi(1)
+				s = zvBi(1)
 			}
 		case 3: // short r = t - s: pick r then t = r + s
 			rr := new(big.Int).SetBytes(rng.Bytes(32 - 1 - rng.Intn(31)))
 			if rr.Sign() == 0 {
-				rr = bi(1)
+				rr = zvBi(1)
 			}
 			tt = ref.ModN(new(big.Int).Add(rr, s))
 		}
-		e, r, inf := tupleFor(k.P, s, tt)
+		e, r, inf := zvTupleFor(k.P, s, tt)
 		if inf || r.Sign() == 0 || tt.Sign() == 0 {
 			continue
 		}
 		px, py := ref.B32(k.P.X), ref.B32(k.P.Y)
-		add(fmt.Sprintf("valid:lz(t)=%d", lzClass(tt)), px, py, ref.B32(e), ref.B32(r), ref.B32(s))
+		add(fmt.Sprintf("valid:lz(t)=%d", zvLzClass(tt)), px, py, ref.B32(e), ref.B32(r), ref.B32(s))
 		if i < nFlipTuples {
 			args := [][]byte{px, py, ref.B32(e), ref.B32(r), ref.B32(s)}
 			names := []string{"px", "py", "e", "r", "s"}
@@ -130,9 +130,9 @@ func TestVerifC03(t *testing.T) {
 	// already being consumed - hundreds of samples so that every window pattern of s meets an empty accumulator
 	for i := 0; i < hk.N(900, 6000); i++ {
 		k := kps[rng.Intn(len(kps))]
-		sI := randScalar(rng)
-		tt := bi(int64(1 + rng.Intn(1<<uint([]int{4, 8, 13, 16, 18}[i%5]))))
-		e, r, inf := tupleFor(k.P, sI, tt)
+		sI := zvRandScalar(rng)
+		tt := zvBi(int64(1 + rng.Intn(1<<uint([]int{4, 8, 13, 16, 18}[i%5]))))
+		e, r, inf := zvTupleFor(k.P, sI, tt)
 		if inf || r.Sign() == 0 {
 			continue
 		}
@@ -143,13 +143,13 @@ func TestVerifC03(t *testing.T) {
 	// copied into another. A verifier that compares the wrong representative, reduces by the wrong modulus
 	// or accepts a second candidate accepts one of these (bit flips are far from all of them).
 	{
-		pmn := new(big.Int).Sub(ref.SM2P, nI)
-		deltas := []*big.Int{pmn, nI, ref.SM2P, new(big.Int).Sub(b256, nI), new(big.Int).Sub(b256, ref.SM2P), bi(1), new(big.Int).Lsh(pmn, 1)}
+		pmn := new(big.Int).Sub(ref.SM2P, zvNI)
+		deltas := []*big.Int{pmn, zvNI, ref.SM2P, new(big.Int).Sub(zvB256, zvNI), new(big.Int).Sub(zvB256, ref.SM2P), zvBi(1), new(big.Int).Lsh(pmn, 1)}
 		dnames := []string{"p-n", "n", "p", "2^256-n", "2^256-p", "1", "2(p-n)"}
 		for i := 0; i < hk.N(12, 100); i++ {
 			k := kps[rng.Intn(len(kps))]
-			sI, tt := randScalar(rng), randScalar(rng)
-			e, r, inf := tupleFor(k.P, sI, tt)
+			sI, tt := zvRandScalar(rng), zvRandScalar(rng)
+			e, r, inf := zvTupleFor(k.P, sI, tt)
 			if inf || r.Sign() == 0 {
 				continue
 			}
@@ -160,11 +160,11 @@ func TestVerifC03(t *testing.T) {
 				for di, dl := range deltas {
 					for _, sign := range []int64{1, -1} {
 						for _, modn := range []bool{false, true} {
-							v := new(big.Int).Add(vals[a], new(big.Int).Mul(dl, bi(sign)))
+							v := new(big.Int).Add(vals[a], new(big.Int).Mul(dl, zvBi(sign)))
 							if modn {
 								v = ref.ModN(v)
 							} else {
-								v.Mod(v, b256)
+								v.Mod(v, zvB256)
 							}
 							if v.Cmp(vals[a]) == 0 {
 								continue
@@ -192,50 +192,50 @@ func TestVerifC03(t *testing.T) {
 		k := kps[rng.Intn(len(kps))]
 		px, py := ref.B32(k.P.X), ref.B32(k.P.Y)
 		// r = 0  (t = s)
-		s := randScalar(rng)
-		e, r, _ := tupleFor(k.P, s, s)
+		s := zvRandScalar(rng)
+		e, r, _ := zvTupleFor(k.P, s, s)
 		add("near:r=0", px, py, ref.B32(e), ref.B32(r), ref.B32(s))
 		// s = 0  (t = r)
-		tt := randScalar(rng)
-		e, r, _ = tupleFor(k.P, bi(0), tt)
-		add("near:s=0", px, py, ref.B32(e), ref.B32(r), ref.B32(bi(0)))
+		tt := zvRandScalar(rng)
+		e, r, _ = zvTupleFor(k.P, zvBi(0), tt)
+		add("near:s=0", px, py, ref.B32(e), ref.B32(r), ref.B32(zvBi(0)))
 		// r + s = n  (t = 0)
-		s = randScalar(rng)
-		e, r, _ = tupleFor(k.P, s, bi(0))
+		s = zvRandScalar(rng)
+		e, r, _ = zvTupleFor(k.P, s, zvBi(0))
 		add("near:r+s=n", px, py, ref.B32(e), ref.B32(r), ref.B32(s))
 		// r' = r + n
 		rr := small()
 		if rr.Sign() > 0 {
-			s = randScalar(rng)
+			s = zvRandScalar(rng)
 			tt = ref.ModN(new(big.Int).Add(rr, s))
-			e, r, inf := tupleFor(k.P, s, tt)
+			e, r, inf := zvTupleFor(k.P, s, tt)
 			if !inf && tt.Sign() != 0 {
-				add("near:r+n", px, py, ref.B32(e), ref.B32(new(big.Int).Add(r, nI)), ref.B32(s))
+				add("near:r+n", px, py, ref.B32(e), ref.B32(new(big.Int).Add(r, zvNI)), ref.B32(s))
 				add("valid:small-r", px, py, ref.B32(e), ref.B32(r), ref.B32(s))
 			}
 		}
 		// s' = s + n
 		s = small()
 		if s.Sign() > 0 {
-			tt = randScalar(rng)
-			e, r, inf := tupleFor(k.P, s, tt)
+			tt = zvRandScalar(rng)
+			e, r, inf := zvTupleFor(k.P, s, tt)
 			if !inf && r.Sign() != 0 {
-				add("near:s+n", px, py, ref.B32(e), ref.B32(r), ref.B32(new(big.Int).Add(s, nI)))
+				add("near:s+n", px, py, ref.B32(e), ref.B32(r), ref.B32(new(big.Int).Add(s, zvNI)))
 				add("valid:small-s", px, py, ref.B32(e), ref.B32(r), ref.B32(s))
 			}
 		}
 		// r = n, s = n exactly; r = n-1 / s = n-1 (valid range edge)
-		s = randScalar(rng)
-		e, r, _ = tupleFor(k.P, s, s) // r=0 => r' = n
-		add("near:r=n", px, py, ref.B32(e), ref.B32(nI), ref.B32(s))
-		e, r, inf := tupleFor(k.P, nm1, ref.ModN(new(big.Int).Add(nm1, bi(5))))
+		s = zvRandScalar(rng)
+		e, r, _ = zvTupleFor(k.P, s, s) // r=0 => r' = n
+		add("near:r=n", px, py, ref.B32(e), ref.B32(zvNI), ref.B32(s))
+		e, r, inf := zvTupleFor(k.P, zvNm1, ref.ModN(new(big.Int).Add(zvNm1, zvBi(5))))
 		if !inf {
-			add("valid:s=n-1", px, py, ref.B32(e), ref.B32(r), ref.B32(nm1))
+			add("valid:s=n-1", px, py, ref.B32(e), ref.B32(r), ref.B32(zvNm1))
 		}
 		// [s]G + [t]P = infinity: s = -t d  (needs d)
-		tt = randScalar(rng)
+		tt = zvRandScalar(rng)
 		s = ref.ModN(new(big.Int).Neg(new(big.Int).Mul(tt, k.d)))
-		e, r, inf = tupleFor(k.P, s, tt)
+		e, r, inf = zvTupleFor(k.P, s, tt)
 		if inf && r.Sign() != 0 && s.Sign() != 0 {
 			add("near:infinity", px, py, ref.B32(e), ref.B32(r), ref.B32(s))
 			// ... and completed with the LIBRARY'S OWN arithmetic: if its double-scalar multiplication does not arrive at
@@ -254,16 +254,16 @@ func TestVerifC03(t *testing.T) {
 				add("near:infinity:digest-solved-for-what-the-library-computes", px, py, ref.B32(e2), ref.B32(r), ref.B32(s))
 			})
 			// and with e = r + n*? (other representatives of the same residue) when it fits
-			if r.Cmp(new(big.Int).Sub(b256, nI)) < 0 {
-				add("near:infinity-e+n", px, py, ref.B32(new(big.Int).Add(e, nI)), ref.B32(r), ref.B32(s))
+			if r.Cmp(new(big.Int).Sub(zvB256, zvNI)) < 0 {
+				add("near:infinity-e+n", px, py, ref.B32(new(big.Int).Add(e, zvNI)), ref.B32(r), ref.B32(s))
 			}
 		}
 		// e >= n (digest is any 256-bit string): valid tuple with e + n when it fits
-		s = randScalar(rng)
-		tt = randScalar(rng)
-		e, r, inf = tupleFor(k.P, s, tt)
-		if !inf && r.Sign() != 0 && e.Cmp(new(big.Int).Sub(b256, nI)) < 0 {
-			add("valid:e+n", px, py, ref.B32(new(big.Int).Add(e, nI)), ref.B32(r), ref.B32(s))
+		s = zvRandScalar(rng)
+		tt = zvRandScalar(rng)
+		e, r, inf = zvTupleFor(k.P, s, tt)
+		if !inf && r.Sign() != 0 && e.Cmp(new(big.Int).Sub(zvB256, zvNI)) < 0 {
+			add("valid:e+n", px, py, ref.B32(new(big.Int).Add(e, zvNI)), ref.B32(r), ref.B32(s))
 		}
 	}
 	// (b2) tuples built from a CHOSEN digest e (any 256-bit string) and a CHOSEN point R = [s]G + [t]P:
@@ -272,39 +272,39 @@ func TestVerifC03(t *testing.T) {
 	{
 		var Rs []ref.Pt
 		for dx := int64(1); len(Rs) < hk.N(4, 16) && dx < 400; dx++ {
-			if R, ok := ref.LiftX(new(big.Int).Sub(ref.SM2P, bi(dx))); ok {
+			if R, ok := ref.LiftX(new(big.Int).Sub(ref.SM2P, zvBi(dx))); ok {
 				Rs = append(Rs, R, R.Neg())
 			}
 		}
 		// the two finite points with x = 0 (b is a square mod p): x1 = 0 is NOT the point at infinity
-		if R, ok := ref.LiftX(bi(0)); ok {
+		if R, ok := ref.LiftX(zvBi(0)); ok {
 			Rs = append(Rs, R, R.Neg())
 		} else {
 			rep.Inconclusive("c03: model finds no point with x = 0")
 		}
 		// x1 in [n, p): reduced mod n it wraps to a tiny value; and x1 just below n, around 2^255, 2^128, 2^64
-		for _, base := range []*big.Int{nI, new(big.Int).Sub(nI, bi(40)), new(big.Int).Lsh(bi(1), 255), new(big.Int).Lsh(bi(1), 128), new(big.Int).Lsh(bi(1), 64), new(big.Int).Lsh(bi(1), 32)} {
+		for _, base := range []*big.Int{zvNI, new(big.Int).Sub(zvNI, zvBi(40)), new(big.Int).Lsh(zvBi(1), 255), new(big.Int).Lsh(zvBi(1), 128), new(big.Int).Lsh(zvBi(1), 64), new(big.Int).Lsh(zvBi(1), 32)} {
 			for dx := int64(0); dx < 40; dx++ {
-				if R, ok := ref.LiftX(new(big.Int).Add(base, bi(dx))); ok {
+				if R, ok := ref.LiftX(new(big.Int).Add(base, zvBi(dx))); ok {
 					Rs = append(Rs, R)
 					break
 				}
 			}
 		}
 		for x := int64(1); len(Rs) < hk.N(18, 48) && x < 400; x++ {
-			if R, ok := ref.LiftX(bi(x)); ok {
+			if R, ok := ref.LiftX(zvBi(x)); ok {
 				Rs = append(Rs, R)
 			}
 		}
 		for i := 0; i < hk.N(4, 40); i++ {
-			Rs = append(Rs, ref.BaseMulFast(randScalar(rng)))
+			Rs = append(Rs, ref.BaseMulFast(zvRandScalar(rng)))
 		}
-		ones := ref.B32(new(big.Int).Sub(b256, bi(1)))
-		es := [][]byte{ones, ref.B32(nI), ref.B32(new(big.Int).Add(nI, bi(1))), ref.B32(new(big.Int).Sub(nI, bi(1))), make([]byte, 32), append([]byte{0xff, 0xff, 0xff, 0xff}, rng.Bytes(28)...), append([]byte{0xff, 0xff, 0xff, 0xfe, 0xff, 0xff, 0xff, 0xff}, rng.Bytes(24)...), rng.Bytes(32)}
+		ones := ref.B32(new(big.Int).Sub(zvB256, zvBi(1)))
+		es := [][]byte{ones, ref.B32(zvNI), ref.B32(new(big.Int).Add(zvNI, zvBi(1))), ref.B32(new(big.Int).Sub(zvNI, zvBi(1))), make([]byte, 32), append([]byte{0xff, 0xff, 0xff, 0xff}, rng.Bytes(28)...), append([]byte{0xff, 0xff, 0xff, 0xfe, 0xff, 0xff, 0xff, 0xff}, rng.Bytes(24)...), rng.Bytes(32)}
 		for _, R := range Rs {
 			for ei, e := range es {
 				rr := ref.ModN(new(big.Int).Add(ref.Int(e), R.X))
-				s := randScalar(rng)
+				s := zvRandScalar(rng)
 				tt := ref.ModN(new(big.Int).Add(rr, s))
 				if rr.Sign() == 0 || tt.Sign() == 0 {
 					continue
@@ -313,21 +313,21 @@ func TestVerifC03(t *testing.T) {
 				if P.Inf {
 					continue
 				}
-				twoN := new(big.Int).Lsh(nI, 1)
+				twoN := new(big.Int).Lsh(zvNI, 1)
 				label := "valid:chosen-e-and-R"
 				if R.X.Sign() == 0 {
 					label = "valid:x1=0"
-				} else if R.X.Cmp(nI) >= 0 {
+				} else if R.X.Cmp(zvNI) >= 0 {
 					label = "valid:x1>=n"
 				}
 				if new(big.Int).Add(ref.Int(e), R.X).Cmp(twoN) >= 0 {
 					label = "valid:e+x1>=2n"
-				} else if ref.Int(e).Cmp(nI) >= 0 {
+				} else if ref.Int(e).Cmp(zvNI) >= 0 {
 					label = "valid:e>=n"
 				}
 				add(label, ref.B32(P.X), ref.B32(P.Y), e, ref.B32(rr), ref.B32(s))
 				if ei%3 == 0 {
-					add("bitflip:e-of-chosen", ref.B32(P.X), ref.B32(P.Y), flip(e, rng.Intn(256)), ref.B32(rr), ref.B32(s))
+					add("bitflip:e-of-chosen", ref.B32(P.X), ref.B32(P.Y), zvFlip(e, rng.Intn(256)), ref.B32(rr), ref.B32(s))
 				}
 			}
 		}
@@ -352,13 +352,13 @@ func TestVerifC03(t *testing.T) {
 					}
 					// the accumulator is built k rows earlier by the key's half: P = [+-t0 * 2^-k]G, t = 2^(row+k)
 					k := []uint{1, 2, 40}[(row+j+w)%3]
-					a := ref.ModN(new(big.Int).Mul(t0, ref.InvN(new(big.Int).Lsh(bi(1), k))))
+					a := ref.ModN(new(big.Int).Mul(t0, ref.InvN(new(big.Int).Lsh(zvBi(1), k))))
 					P = ref.BaseMulFast(a)
 					if neg {
 						P = P.Neg()
 					}
 					sI := ref.ModN(new(big.Int).Lsh(t0, row))
-					tt := new(big.Int).Lsh(bi(1), row+k)
+					tt := new(big.Int).Lsh(zvBi(1), row+k)
 					rr := ref.ModN(new(big.Int).Sub(tt, sI))
 					R := ref.BaseMulFast(sI).Add(P.Mul(tt))
 					if R.Inf || rr.Sign() == 0 || sI.Sign() == 0 {
@@ -381,7 +381,7 @@ func TestVerifC03(t *testing.T) {
 		}
 		for i, P := range sps {
 			for q := 0; q < 2; q++ {
-				sI, tt := randScalar(rng), randScalar(rng)
+				sI, tt := zvRandScalar(rng), zvRandScalar(rng)
 				rr := ref.ModN(new(big.Int).Sub(tt, sI))
 				R := ref.BaseMulFast(sI).Add(P.Mul(tt))
 				if R.Inf || rr.Sign() == 0 {
@@ -390,7 +390,7 @@ func TestVerifC03(t *testing.T) {
 				e := ref.B32(ref.ModN(new(big.Int).Sub(rr, R.X)))
 				add("valid:key-coordinate-class:"+scls[i], ref.B32(P.X), ref.B32(P.Y), e, ref.B32(rr), ref.B32(sI))
 				if q == 0 {
-					add("bitflip:e-under-special-key", ref.B32(P.X), ref.B32(P.Y), flip(e, rng.Intn(256)), ref.B32(rr), ref.B32(sI))
+					add("bitflip:e-under-special-key", ref.B32(P.X), ref.B32(P.Y), zvFlip(e, rng.Intn(256)), ref.B32(rr), ref.B32(sI))
 				}
 			}
 		}
@@ -402,9 +402,9 @@ func TestVerifC03(t *testing.T) {
 	// and acceptance is the curve test the standard requires.
 	for _, np := range ref.NearCurvePoints(rng.Bytes, hk.N(1, 4)) {
 		px, py := ref.B32(np.X), ref.B32(np.Y)
-		sI, rr := randScalar(rng), randScalar(rng)
+		sI, rr := zvRandScalar(rng), zvRandScalar(rng)
 		tt := ref.ModN(new(big.Int).Add(rr, sI))
-		e := ref.B32(randScalar(rng))
+		e := ref.B32(zvRandScalar(rng))
 		if tt.Sign() != 0 {
 			hk.Try(func() {
 				pt, err := internal.NewSM2Point().SetBytes(append(append([]byte{4}, px...), py...))
@@ -429,8 +429,8 @@ func TestVerifC03(t *testing.T) {
 			if !hk.Thorough() && i%3 != int(hk.Seed()%3) && al.Class[:3] == "x+p" && al.Class != "x+p:x-tiny" {
 				continue
 			}
-			sI, tt := randScalar(rng), randScalar(rng)
-			e, rr, inf := tupleFor(al.P, sI, tt)
+			sI, tt := zvRandScalar(rng), zvRandScalar(rng)
+			e, rr, inf := zvTupleFor(al.P, sI, tt)
 			if inf || rr.Sign() == 0 {
 				continue
 			}
@@ -441,13 +441,13 @@ func TestVerifC03(t *testing.T) {
 	// zero words, or loses a carry at a word boundary, only shows on such multipliers)
 	for i := 0; i < hk.N(48, 400); i++ {
 		k := kps[rng.Intn(len(kps))]
-		tt := randScalar(rng)
+		tt := zvRandScalar(rng)
 		switch i % 6 {
 		case 0:
-			tt = new(big.Int).Lsh(bi(1), uint((i/6*5+int(hk.Seed()))%255))
+			tt = new(big.Int).Lsh(zvBi(1), uint((i/6*5+int(hk.Seed()))%255))
 		case 1:
 			w := uint(i / 6 % 8)
-			tt.AndNot(tt, new(big.Int).Lsh(bi(0xffffffff), 32*w))
+			tt.AndNot(tt, new(big.Int).Lsh(zvBi(0xffffffff), 32*w))
 		case 2:
 			w := uint(i / 6 % 4)
 			tt.AndNot(tt, new(big.Int).Lsh(new(big.Int).SetUint64(^uint64(0)), 64*w))
@@ -455,13 +455,13 @@ func TestVerifC03(t *testing.T) {
 			tt.Rsh(tt, uint(32*(1+i/6%6)))
 			tt.Lsh(tt, uint(32*(1+i/6%6)))
 		case 4:
-			tt = new(big.Int).Sub(new(big.Int).Lsh(bi(1), uint(40+(i/6*7)%200)), bi(1)) // a long run of ones
+			tt = new(big.Int).Sub(new(big.Int).Lsh(zvBi(1), uint(40+(i/6*7)%200)), zvBi(1)) // a long run of ones
 		default:
 			tt.SetBytes(append(rng.Bytes(4), make([]byte, 4*(1+i/6%6))...))
 		}
 		tt = ref.ModN(tt)
-		sI := randScalar(rng)
-		e, rr, inf := tupleFor(k.P, sI, tt)
+		sI := zvRandScalar(rng)
+		e, rr, inf := zvTupleFor(k.P, sI, tt)
 		if inf || rr.Sign() == 0 || tt.Sign() == 0 {
 			continue
 		}
@@ -471,8 +471,8 @@ func TestVerifC03(t *testing.T) {
 	// each argument has the wrong length, their sum is right
 	for i := 0; i < hk.N(4, 20); i++ {
 		k := kps[3+rng.Intn(len(kps)-3)]
-		sI, tt := randScalar(rng), randScalar(rng)
-		e, rr, inf := tupleFor(k.P, sI, tt)
+		sI, tt := zvRandScalar(rng), zvRandScalar(rng)
+		e, rr, inf := zvTupleFor(k.P, sI, tt)
 		if inf || rr.Sign() == 0 {
 			continue
 		}
@@ -485,7 +485,7 @@ func TestVerifC03(t *testing.T) {
 	}
 	// non-canonical key x0 + p for on-curve x0 anywhere in [0, 2^256 - p) (top word of the encoding FFFFFFFE or FFFFFFFF)
 	{
-		span := new(big.Int).Sub(b256, ref.SM2P)
+		span := new(big.Int).Sub(zvB256, ref.SM2P)
 		found := 0
 		for tries := 0; found < hk.N(10, 60) && tries < 4000; tries++ {
 			x0 := new(big.Int).SetBytes(rng.Bytes(29))
@@ -495,7 +495,7 @@ func TestVerifC03(t *testing.T) {
 			case 2:
 				x0 = new(big.Int).Sub(span, new(big.Int).SetBytes(rng.Bytes(3))) // just below 2^256 - p
 			case 3:
-				x0 = new(big.Int).Add(new(big.Int).Lsh(bi(1), 96), new(big.Int).SetBytes(rng.Bytes(6)))
+				x0 = new(big.Int).Add(new(big.Int).Lsh(zvBi(1), 96), new(big.Int).SetBytes(rng.Bytes(6)))
 			}
 			if x0.Sign() < 0 || x0.Cmp(span) >= 0 {
 				continue
@@ -505,8 +505,8 @@ func TestVerifC03(t *testing.T) {
 				continue
 			}
 			found++
-			s, tt := randScalar(rng), randScalar(rng)
-			e, r, inf := tupleFor(Q, s, tt)
+			s, tt := zvRandScalar(rng), zvRandScalar(rng)
+			e, r, inf := zvTupleFor(Q, s, tt)
 			if inf || r.Sign() == 0 {
 				continue
 			}
@@ -518,22 +518,22 @@ func TestVerifC03(t *testing.T) {
 	}
 	// the D7 witness shape: P = G, r = -2s, e = r
 	{
-		s := randScalar(rng)
-		r := ref.ModN(new(big.Int).Mul(s, bi(-2)))
+		s := zvRandScalar(rng)
+		r := ref.ModN(new(big.Int).Mul(s, zvBi(-2)))
 		add("near:infinity-P=G", ref.B32(ref.SM2Gx), ref.B32(ref.SM2Gy), ref.B32(r), ref.B32(r), ref.B32(s))
 	}
 	// non-canonical key: on-curve point with x < 2^256 - p, presented as x + p
-	lim := new(big.Int).Sub(b256, ref.SM2P)
+	lim := new(big.Int).Sub(zvB256, ref.SM2P)
 	found := 0
 	for x := int64(0); x < 200 && found < hk.N(3, 12); x++ {
-		P, ok := ref.LiftX(bi(x))
+		P, ok := ref.LiftX(zvBi(x))
 		if !ok {
 			continue
 		}
 		found++
 		for _, Q := range []ref.Pt{P, P.Neg()} {
-			s, tt := randScalar(rng), randScalar(rng)
-			e, r, inf := tupleFor(Q, s, tt)
+			s, tt := zvRandScalar(rng), zvRandScalar(rng)
+			e, r, inf := zvTupleFor(Q, s, tt)
 			if inf || r.Sign() == 0 {
 				continue
 			}
@@ -549,8 +549,8 @@ func TestVerifC03(t *testing.T) {
 	// off-curve / degenerate keys with an otherwise well-formed signature
 	for i := 0; i < hk.N(20, 300); i++ {
 		k := kps[rng.Intn(len(kps))]
-		s, tt := randScalar(rng), randScalar(rng)
-		e, r, inf := tupleFor(k.P, s, tt)
+		s, tt := zvRandScalar(rng), zvRandScalar(rng)
+		e, r, inf := zvTupleFor(k.P, s, tt)
 		if inf || r.Sign() == 0 {
 			continue
 		}
@@ -562,7 +562,7 @@ func TestVerifC03(t *testing.T) {
 		add("key:negated", px, ref.B32(k.P.Neg().Y), ref.B32(e), ref.B32(r), ref.B32(s))
 		add("key:(x,0)", px, z, ref.B32(e), ref.B32(r), ref.B32(s))
 		add("key:p", ref.B32(ref.SM2P), py, ref.B32(e), ref.B32(r), ref.B32(s))
-		add("key:ff", ref.B32(new(big.Int).Sub(b256, bi(1))), ref.B32(new(big.Int).Sub(b256, bi(1))), ref.B32(e), ref.B32(r), ref.B32(s))
+		add("key:ff", ref.B32(new(big.Int).Sub(zvB256, zvBi(1))), ref.B32(new(big.Int).Sub(zvB256, zvBi(1))), ref.B32(e), ref.B32(r), ref.B32(s))
 		// (d) every argument with a wrong length
 		if i < hk.N(2, 8) {
 			args := [][]byte{px, py, ref.B32(e), ref.B32(r), ref.B32(s)}
@@ -605,7 +605,7 @@ func TestVerifC03(t *testing.T) {
 		for i := 0; i < hk.N(6, 40); i++ {
 			K := kps[i%len(kps)]
 			px, py := ref.B32(K.P.X), ref.B32(K.P.Y)
-			rv, sv := randScalar(rng), randScalar(rng)
+			rv, sv := zvRandScalar(rng), zvRandScalar(rng)
 			tv := ref.ModN(new(big.Int).Add(rv, sv))
 			if tv.Sign() == 0 {
 				continue
@@ -618,17 +618,17 @@ func TestVerifC03(t *testing.T) {
 				name string
 				v    *big.Int
 			}
-			tgts := []tgt{{"equal", rv}, {"zero", bi(0)}}
+			tgts := []tgt{{"equal", rv}, {"zero", zvBi(0)}}
 			for _, k := range []int{1, 4, 7, 8, 9, 16, 17, 24, 31} {
 				tgts = append(tgts, tgt{fmt.Sprintf("R=r-with-top-%d-bytes-cleared", k), clear(rv, 0, k)})
 				tgts = append(tgts, tgt{fmt.Sprintf("R=r-with-low-%d-bytes-cleared", k), clear(rv, 32-k, 32)})
 			}
 			for _, bit := range []int{0, 31, 32, 63, 64, 127, 128, 191, 192, 254} {
-				tgts = append(tgts, tgt{fmt.Sprintf("R=r-with-bit-%d-flipped", bit), new(big.Int).Xor(rv, new(big.Int).Lsh(bi(1), uint(bit)))})
+				tgts = append(tgts, tgt{fmt.Sprintf("R=r-with-bit-%d-flipped", bit), new(big.Int).Xor(rv, new(big.Int).Lsh(zvBi(1), uint(bit)))})
 			}
 			tgts = append(tgts, tgt{"R=r-limbs-reversed", ref.Int(append(append(append(append([]byte{}, ref.B32(rv)[24:]...), ref.B32(rv)[16:24]...), ref.B32(rv)[8:16]...), ref.B32(rv)[:8]...))})
 			for _, tg := range tgts {
-				if tg.v.Cmp(nI) >= 0 {
+				if tg.v.Cmp(zvNI) >= 0 {
 					continue
 				}
 				e := ref.ModN(new(big.Int).Sub(tg.v, X.X))
@@ -659,7 +659,7 @@ func TestVerifC03(t *testing.T) {
 	// as dangerous as they can be: the tuple is VALID for the value reduced mod n, so a range test that lets one of
 	// them through (a limb-wise comparison that forgets a condition) accepts. Values below n are valid tuples and must pass.
 	{
-		grid := ref.LimbGrid(nI)
+		grid := ref.LimbGrid(zvNI)
 		for gi, g := range grid {
 			if !hk.Thorough() && gi%2 != int(hk.Seed()%2) {
 				continue
@@ -671,23 +671,23 @@ func TestVerifC03(t *testing.T) {
 				continue
 			}
 			where := "below-n"
-			if g.Cmp(nI) >= 0 {
+			if g.Cmp(zvNI) >= 0 {
 				where = "at-or-above-n"
 			}
 			// as s
 			{
-				tv := randScalar(rng)
-				e, rr, inf := tupleFor(K.P, red, tv)
+				tv := zvRandScalar(rng)
+				e, rr, inf := zvTupleFor(K.P, red, tv)
 				if !inf && rr.Sign() != 0 {
 					add("limb-grid-around-n:s:"+where, px, py, ref.B32(e), ref.B32(rr), ref.B32(g))
 				}
 			}
 			// as r: r = t - s, so s = t - r
 			{
-				tv := randScalar(rng)
+				tv := zvRandScalar(rng)
 				sv := ref.ModN(new(big.Int).Sub(tv, red))
 				if sv.Sign() != 0 {
-					e, rr, inf := tupleFor(K.P, sv, tv)
+					e, rr, inf := zvTupleFor(K.P, sv, tv)
 					if !inf && rr.Cmp(red) == 0 {
 						add("limb-grid-around-n:r:"+where, px, py, ref.B32(e), ref.B32(g), ref.B32(sv))
 					}
@@ -775,7 +775,7 @@ func TestVerifC03(t *testing.T) {
 	// in an order that revisits keys; every answer is compared with the model (state kept from one
 	// call must not influence the next)
 	for h := 0; h < hk.N(6, 40); h++ {
-		lr := hk.NewRNG(hk.Seed(), caseID("c03hist", h))
+		lr := hk.NewRNG(hk.Seed(), zvCaseID("c03hist", h))
 		base := kps[3+lr.Intn(len(kps)-3)]
 		other := kps[3+lr.Intn(len(kps)-3)]
 		keys := []ref.Pt{base.P, base.P.Neg(), base.P.Dbl(), other.P, other.P.Neg(), ref.G(), ref.G().Neg()}
@@ -783,11 +783,11 @@ func TestVerifC03(t *testing.T) {
 		sigs := make([][]sig, len(keys))
 		for ki, K := range keys {
 			for j := 0; j < 3; j++ {
-				sv, tv := randScalar(lr), randScalar(lr)
+				sv, tv := zvRandScalar(lr), zvRandScalar(lr)
 				if j == 2 {
-					tv = bi(int64(1 + lr.Intn(8000))) // tiny t: (r+s) mod n small
+					tv = zvBi(int64(1 + lr.Intn(8000))) // tiny t: (r+s) mod n small
 				}
-				e, rr, inf := tupleFor(K, sv, tv)
+				e, rr, inf := zvTupleFor(K, sv, tv)
 				if inf || rr.Sign() == 0 {
 					continue
 				}
@@ -835,9 +835,9 @@ func TestVerifC03(t *testing.T) {
 	}
 	// canaries: after all the hostile verifications above the rest of the API must still be exact
 	for i := 0; i < hk.N(80, 400); i++ {
-		d := randScalar(rng)
+		d := zvRandScalar(rng)
 		if i < 64 {
-			d = new(big.Int).Lsh(bi(int64(1+i%63)), uint(4+6*(i%40))) // single comb digits at varied positions
+			d = new(big.Int).Lsh(zvBi(int64(1+i%63)), uint(4+6*(i%40))) // single comb digits at varied positions
 			d = ref.ModN(d)
 			if d.Sign() == 0 {
 				continue
@@ -846,7 +846,7 @@ func TestVerifC03(t *testing.T) {
 		x, y, err := DerivePublic(ref.B32(d))
 		P := ref.BaseMulFast(d)
 		if err != nil || hk.Hex(x) != hk.Hex(ref.B32(P.X)) || hk.Hex(y) != hk.Hex(ref.B32(P.Y)) {
-			rep.Violation("canary:DerivePublic-wrong-after-verification-workload", hk.D{"d": hk.Hex(ref.B32(d)), "x": hexOrNil(x), "y": hexOrNil(y)})
+			rep.Violation("canary:DerivePublic-wrong-after-verification-workload", hk.D{"d": hk.Hex(ref.B32(d)), "x": zvHexOrNil(x), "y": zvHexOrNil(y)})
 		}
 		rep.Eval("canary:derive-after-workload")
 	}
@@ -876,7 +876,7 @@ func TestVerifC03(t *testing.T) {
 			{"wrap:valid", id, msg, rb, sb},
 			{"wrap:other-msg", id, append(append([]byte{}, msg...), 0), rb, sb},
 			{"wrap:other-id", append(append([]byte{}, id...), 1), msg, rb, sb},
-			{"wrap:flipped-r", id, msg, flip(rb, rng.Intn(256)), sb},
+			{"wrap:flipped-r", id, msg, zvFlip(rb, rng.Intn(256)), sb},
 		}
 		for _, v := range variants {
 			za2, _ := ref.SM2ZA(v.id, px, py)
@@ -887,7 +887,7 @@ func TestVerifC03(t *testing.T) {
 				ok1, e1 = Verify(v.id, px, py, v.msg, v.r, v.s)
 				ok2, e2 = VerifyZa(px, py, za2, v.msg, v.r, v.s)
 			})
-			d := hk.D{"id": hk.Hex(v.id), "msg": hk.Hex(v.msg), "px": hk.Hex(px), "py": hk.Hex(py), "r": hk.Hex(v.r), "s": hk.Hex(v.s), "want": want, "verify": ok1, "verifyza": ok2, "e1": errStr(e1), "e2": errStr(e2)}
+			d := hk.D{"id": hk.Hex(v.id), "msg": hk.Hex(v.msg), "px": hk.Hex(px), "py": hk.Hex(py), "r": hk.Hex(v.r), "s": hk.Hex(v.s), "want": want, "verify": ok1, "verifyza": ok2, "e1": zvErrStr(e1), "e2": zvErrStr(e2)}
 			if p {
 				d["panic"] = msgp
 				rep.Violation("wrapper-panics:"+v.label, d)
@@ -900,7 +900,7 @@ func TestVerifC03(t *testing.T) {
 	rep.Note("cases", len(cases))
 }
 
-func flip(b []byte, bit int) []byte {
+func zvFlip(b []byte, bit int) []byte {
 	o := append([]byte{}, b...)
 	o[bit/8] ^= 1 << uint(bit%8)
 	return o
